@@ -43,6 +43,7 @@ func init() {
 		Batch:            4,
 		Workers:          8,
 		PanicIsViolation: true,
+		BenignCrash:      cluster.StartupRace,
 		BatchTimeout:     15 * time.Minute,
 		Env:              []string{"VERIF_TIMER_DIV=10"},
 		Run:              runC16,
